@@ -231,6 +231,28 @@ impl G<'_> {
         s
     }
 
+    /// `$sv::` members with the SAME leaf name in different `$sv` scopes (depth 1, 2 and sometimes 3);
+    /// the same member names are used by every file that gets such a module.
+    fn sv_dup(&mut self, n: usize) -> String {
+        let t = &self.tag.clone();
+        self.feat("sv_same_leaf_different_scope");
+        let mut s = format!("module SvDup{t}{n} (\n    i_d: input logic,\n) {{\n");
+        s.push_str("    const KD: u32 = $sv::dup_pkg::dup_m;\n");
+        s.push_str("    inst u_dup: $sv::dup_m;\n");
+        if self.rng.bool() {
+            s.push_str("    const KE: u32 = $sv::dup_pkg2::dup_m;\n    let _ke: u32 = KE;\n");
+        }
+        if self.rng.chance(1, 3) {
+            self.feat("sv_scope_depth_3");
+            s.push_str("    const KF: u32 = $sv::dup_pkg::dup_inner::dup_m;\n    let _kf: u32 = KF;\n");
+        }
+        if self.rng.bool() {
+            s.push_str("    var v_dup: $sv::dup_pkg::dup_t;\n    assign v_dup = 0;\n    var w_dup: $sv::dup_t;\n    assign w_dup = 0;\n");
+        }
+        s.push_str("    let _kd: u32   = KD;\n    let _x : logic = i_d & u_dup.dup_sig;\n}\n");
+        s
+    }
+
     #[allow(clippy::too_many_arguments)]
     fn top(&mut self, n: usize, pkg: usize, leafs: &[(usize, Option<usize>)], gmods: &[usize], gpkgs: &[usize], cdcs: &[usize], gbus: &[usize]) -> String {
         let t = &self.tag.clone();
@@ -342,6 +364,16 @@ pub fn project(rng: &mut Rng, want_files: usize) -> FileSet {
         let k = texts.len();
         let t = g.leaf(10 + k, 0, None);
         texts.push((format!("more{k}"), t));
+    }
+    if g.rng.chance(2, 3) {
+        // two or three files mention the same `$sv` members (same leaf names in different scopes)
+        let mut idx: Vec<usize> = (0..texts.len()).collect();
+        g.rng.shuffle(&mut idx);
+        let k = 2 + usize::from(texts.len() > 2 && g.rng.bool());
+        for (m, &i) in idx.iter().take(k).enumerate() {
+            let t = g.sv_dup(m);
+            texts[i].1.push_str(&t);
+        }
     }
     for (name, text) in texts {
         files.push(FileSrc { name: format!("src/{name}_{tag}.veryl"), text });
